@@ -657,6 +657,8 @@ pub struct C06State {
     /// "interest was really charged" evaluations (independent lower bound on the liability share value's growth)
     pub charged_checks: u64,
     pub charged_zero_borrow_limit: u64,
+    pub prog_fee_checks: u64,
+    pub foreign_group_cranks: u64,
     pub charged_skipped_small: u64,
 }
 
@@ -832,6 +834,55 @@ pub fn c06_step(st: &mut C06State, pre: &StoreSnap, post: &StoreSnap, step: &Ste
                         if !same {
                             out.push(finding("accrual:not-applied-first", format!("op#{} {}: account {} ends with different shares when interest is accrued explicitly first", step.index, step.op.name(), acct)));
                         }
+                    }
+                }
+            }
+        }
+    }
+    // "program fees are zero when disabled for the group" (a clause about ACCRUAL): in a step that books fees through
+    // interest accrual only - the crank, deposit, withdraw, repay, balance closure - a bank of a group whose program-fee
+    // switch is off (at the pre-state) books no program fee. (Borrows are left out: the program's share of a borrow's
+    // ORIGINATION fee is booked whatever the switch says - `lending_account_borrow` reads the cached program_fee_rate
+    // without consulting the flag; observed, 2025 guides describe the split but not the switch; not an accrual fee, so not
+    // judged here.)
+    let accrual_only = matches!(step.op, Op::Accrue { .. } | Op::Deposit { .. } | Op::Withdraw { .. } | Op::Repay { .. } | Op::CloseBalance { .. });
+    if let (true, Some(pre_vm)) = (accrual_only, &step.pre_vm) {
+        let off = pre_vm.get(&w.group).map(|a| bytemuck::from_bytes::<marginfi_type_crate::types::MarginfiGroup>(&a.data[8..8 + std::mem::size_of::<marginfi_type_crate::types::MarginfiGroup>()]).group_flags & 1 == 0).unwrap_or(false);
+        if off {
+            for bi in &banks {
+                let k = w.banks[*bi].key;
+                if let (Some(b0), Some(b1)) = (pre.banks.get(&k), post.banks.get(&k)) {
+                    st.prog_fee_checks += 1;
+                    if b1.f_prog > b0.f_prog {
+                        out.push(finding("accrual:program-fee-while-disabled", format!("op#{} {}: bank {} booked {} of program fees although its group has program fees disabled", step.index, step.op.name(), k, q_str(&(&b1.f_prog - &b0.f_prog)))));
+                    }
+                }
+            }
+        }
+    }
+    // the permissionless crank with ANOTHER group in its group slot (anyone may create a group; a new group has program
+    // fees enabled and its own fee cache): refused, or else it must leave the bank exactly where the honest crank does
+    if let (Op::Accrue { .. }, Some(bi), Some(pre_vm)) = (&step.op, step.bank, &step.pre_vm) {
+        let mut vm = pre_vm.clone();
+        let g2 = crate::world::kp("c06_foreign_group", 0);
+        let init = crate::world::mfi_ix(
+            anchor_lang::ToAccountMetas::to_account_metas(&marginfi::accounts::MarginfiGroupInitialize { marginfi_group: g2, admin: w.roles.stranger, fee_state: w.fee_state, system_program: solana_program::system_program::ID }, Some(true)),
+            anchor_lang::InstructionData::data(&marginfi::instruction::MarginfiGroupInitialize {}),
+        );
+        if vm.get(&g2).is_some() || vm.exec(&init).is_ok() {
+            let hostile = crate::world::mfi_ix(
+                anchor_lang::ToAccountMetas::to_account_metas(&marginfi::accounts::LendingPoolAccrueBankInterest { group: g2, bank: w.banks[bi].key }, Some(true)),
+                anchor_lang::InstructionData::data(&marginfi::instruction::LendingPoolAccrueBankInterest {}),
+            );
+            st.foreign_group_cranks += 1;
+            if vm.exec(&hostile).is_ok() {
+                let k = w.banks[bi].key;
+                if let (Some(hb), Some(ob)) = (bank_snap(&vm, &k), post.banks.get(&k)) {
+                    if bank_core_eq(&hb, ob).is_some() || hb.f_prog != ob.f_prog || hb.f_grp != ob.f_grp || hb.f_ins != ob.f_ins {
+                        out.push(finding(
+                            "accrual:foreign-group-changes-accrual",
+                            format!("op#{}: the interest crank of bank {} accepted another group's account in its group slot and accrued differently (program fees {} vs {}, liability share value {} vs {})", step.index, k, q_str(&hb.f_prog), q_str(&ob.f_prog), q_str(&hb.lsv), q_str(&ob.lsv)),
+                        ));
                     }
                 }
             }
